@@ -12,6 +12,8 @@ GInit == Init /\ hist = <<>>
 Rec(op, a, b, c) == [op |-> op, a |-> a, b |-> b, c |-> c, sens |-> mcfg.sens, L |-> mcfg.L]
 GRef == /\ lastCall = "init" /\ \E r \in Refs : SetReference(r) /\ hist' = Append(hist, [call |-> Rec("set_reference", 0, 0, 0), rows |-> r, exp |-> Proj'])
         /\ lastCall' = "set_reference" /\ UNCHANGED labelsGiven
+GReRef == /\ lastCall # "init" /\ \E r \in Refs : SetReference(r) /\ hist' = Append(hist, [call |-> Rec("set_reference", 0, 0, 0), rows |-> r, exp |-> Proj'])
+          /\ lastCall' = "set_reference" /\ UNCHANGED labelsGiven
 GUpd == /\ lastCall # "init" /\ \E m \in {0, 1} : Update(m) /\ hist' = Append(hist, [call |-> Rec("update", m, 0, 0), rows |-> <<>>, exp |-> Proj'])
         /\ lastCall' = "update" /\ labelsGiven' = 0
 GUpdRef == /\ lastCall # "init" /\ \E rows \in {1, 2} : UpdateRefused(rows) /\ hist' = Append(hist, [call |-> Rec("update_refused", rows, 0, 0), rows |-> <<>>, exp |-> Proj'])
@@ -22,7 +24,7 @@ GLab == /\ lastCall # "init" /\ \E m \in {0, 1}, c \in {0, 1} : GiveLabel(m, c, 
 GLabRef == /\ lastCall # "init" /\ \E rows \in {1, 2}, ok \in BOOLEAN : LabelRefused(rows, ok)
                                       /\ hist' = Append(hist, [call |-> Rec("label_refused", rows, IF ok THEN 1 ELSE 0, 0), rows |-> <<>>, exp |-> Proj'])
            /\ lastCall' = "label refused" /\ UNCHANGED labelsGiven
-GNext == GRef \/ GUpd \/ GUpdRef \/ GLab \/ GLabRef
+GNext == GRef \/ GReRef \/ GUpd \/ GUpdRef \/ GLab \/ GLabRef
 GSpec == GInit /\ [][GNext]_gvars
 Emit == TLCGet("level") < Depth \/ PrintT("GEN|" \o ToJson(hist))
 =============================================================================
